@@ -600,6 +600,7 @@ def deck_manager_rules(ctx):
 
 
 VARIANTS = [
+    M('R4', ME, "                    self._read_requests.pop(id, None)\n                    self.mem_read_cb.call(rreq.mem, rreq.addr, rreq.data)", "                    self.mem_read_cb.call(rreq.mem, rreq.addr, rreq.data)\n                    self._read_requests.pop(id, None)", 'read record released after the notification'),
     M('R4', ME, "                self._read_requests.pop(id, None)\n                self.mem_read_failed_cb.call(rreq.mem, rreq.addr, rreq.data)", "                self._read_requests.pop(addr, None)\n                self.mem_read_failed_cb.call(rreq.mem, rreq.addr, rreq.data)", 'failed read removed under the address'),
     M('R10', DM, "                tmp_cb = self._read_failed_cb\n                self._clear_read_cb()\n                if tmp_cb is not None:\n                    tmp_cb(addr - self._read_base_address)",
       "                tmp_cb = self._read_failed_cb\n                if tmp_cb is not None:\n                    self._clear_read_cb()\n                    tmp_cb(addr - self._read_base_address)", 'record kept when no failure callback'),
